@@ -152,11 +152,12 @@ inductive NErr where
   | unencrypted     -- Error::UnencryptedDatabaseWithEncryption
   | keyMissing      -- Error::KeyringEntryMissingForExistingDatabase
   | wrongKey        -- Error::WrongEncryptionKey
+  | keyring         -- Error::Keyring / KeyringNotInitialized
   deriving DecidableEq, Repr
 
 inductive NPc where
   | pre                   -- about to precreate
-  | kr (p : Pc)           -- Created: inside get_or_create_db_key
+  | kr                    -- Created: inside get_or_create_db_key (its own program counter is `NSt.k.pc t`)
   | chk                   -- AlreadyExisted: about to call get_db_key
   | probe                 -- no key in the keyring: about to call is_database_encrypted
   | opening (k : Nat)     -- has a key: about to open the connection
@@ -166,12 +167,10 @@ inductive NPc where
 
 structure NSt where
   file : NFile
-  ring : Option Nat
-  lock : Option Nat
+  k : St                  -- keyring entry, KEY_GENERATION_LOCK and the get_or_create program counters
   pc : Nat → NPc
-  stores : Nat
 
-def ninit : NSt := { file := .missing, ring := none, lock := none, pc := fun _ => .pre, stores := 0 }
+def ninit : NSt := { file := .missing, k := init none, pc := fun _ => .pre }
 
 def nset (s : NSt) (t : Nat) (p : NPc) : NSt := { s with pc := fun u => if u = t then p else s.pc u }
 
@@ -180,26 +179,15 @@ def nstep (s : NSt) (t fresh : Nat) : NSt :=
   match s.pc t with
   | .pre =>
       match s.file with
-      | .missing => nset { s with file := .empty } t (.kr .start)
+      | .missing => nset { s with file := .empty } t .kr
       | _ => nset s t .chk
-  | .kr .start =>
-      match s.ring with
-      | some k => nset s t (.opening k)
-      | none => nset s t (.kr .wantLock)
-  | .kr .wantLock =>
-      match s.lock with
-      | none => nset { s with lock := some t } t (.kr .locked)
-      | some _ => s
-  | .kr .locked =>
-      match s.ring with
-      | some k => nset { s with lock := none } t (.opening k)
-      | none => nset s t (.kr .gen)
-  | .kr .gen => nset s t (.kr (.store fresh))
-  | .kr (.store k) => nset { s with ring := some k, stores := s.stores + 1, lock := none } t (.opening k)
-  | .kr (.done k) => nset s t (.opening k)
-  | .kr .failed => s
+  | .kr =>
+      match s.k.pc t with
+      | .done k => nset s t (.opening k)               -- get_or_create_db_key returned Ok(k)
+      | .failed => nset s t (.err .keyring)            -- … returned Err (not reachable with a working keyring)
+      | _ => { s with k := stepThread s.k t fresh true }
   | .chk =>
-      match s.ring with
+      match s.k.ring with
       | some k => nset s t (.opening k)
       | none => nset s t .probe
   | .probe =>
